@@ -383,8 +383,15 @@ func (ex *Exec) frameCheck(st *State, fr *Frame, fc *FuncContract, env *Env) {
 			allow = append(allow, allowed{loc.Obj, pathKey(loc.Path)})
 		}
 	}
+	reach := map[int]bool{}
+	if fc != nil && fc.ModReach && len(ex.entry.Params) > 0 {
+		collectObjs(&State{heap: entry, globals: ex.entry.Globals}, ex.entry.Params[0], reach, 8)
+	}
 	ids := make([]int, 0, len(entry))
 	for id := range entry {
+		if reach[id] {
+			continue
+		}
 		ids = append(ids, id)
 	}
 	sort.Ints(ids)
